@@ -49,19 +49,31 @@ Definition mismatch (k : case) : bool :=
 
 (* property level, on the observations alone:
    1 = the two ends disagree on resumption or on success
-   2 = resumed although nothing was offered, or an identifier never created in this history
+   2 = resumed although nothing was offered, or an identifier that no successful handshake with
+       this server created, or one the server has lost since (cache loss)
    3 = a session offered in a connection that failed is offered again by the next connection to that server
    4 = a new session reuses an identifier
    5 = not resumed and the handshake failed although the same pair succeeds without a session (no transparent fallback)
    6 = the client offered an identifier that no successful handshake of this history created
-       (a session kept from a handshake that ended in an error) *)
-Fixpoint scan (last_failed : list (N * N)) (seen_new : list N) (evs : list hev) : N :=
+       (a session kept from a handshake that ended in an error)
+   7 = resumed a session whose suite the client no longer offers or the server no longer enables
+   `made` : the sessions created so far and still held by their server: (identifier, server, suite) *)
+Fixpoint find_made (i : N) (made : list (N * (N * N))) : option (N * N) :=
+  match made with [] => None | (k, v) :: r => if i =? k then Some v else find_made i r end.
+
+Fixpoint scan (last_failed : list (N * N)) (seen_new : list N) (made : list (N * (N * N))) (evs : list hev) : N :=
   match evs with
   | [] => 0
   | HConnect j c s rv sc o :: t =>
       if negb (Bool.eqb (ob_res_c o) (ob_res_s o)) || negb (Bool.eqb (ob_ok_c o) (ob_ok_s o)) then 1
       else if ob_offered o =? 9999 then 6
       else if ob_res_c o && (ob_offered o =? 0) then 2
+      else if ob_res_c o && match find_made (ob_offered o) made with
+                            | Some (j', _) => negb (j' =? j)
+                            | None => true end then 2
+      else if ob_res_c o && match find_made (ob_offered o) made with
+                            | Some (_, su) => negb (memN su (client_offer c) && memN su (cfg_suites (s_suites s)))
+                            | None => false end then 7
       else if existsb (fun p => (fst p =? j) && (snd p =? ob_offered o)) last_failed && negb (ob_offered o =? 0) then 3
       else if negb (ob_new o =? 0) && memN (ob_new o) seen_new then 4
       else if negb (ob_res_c o) && negb (ob_ok_c o) && (match honest_run c s with Some _ => true | None => false end) then 5
@@ -69,11 +81,16 @@ Fixpoint scan (last_failed : list (N * N)) (seen_new : list N) (evs : list hev) 
         let lf := if negb (ob_ok_c o) && negb (ob_offered o =? 0)
                   then (j, ob_offered o) :: last_failed
                   else filter (fun p => negb (fst p =? j)) last_failed in
-        scan lf (if ob_new o =? 0 then seen_new else ob_new o :: seen_new) t
-  | _ :: t => scan last_failed seen_new t
+        let made' := if ob_new o =? 0 then made
+                     else match honest_run c s with
+                          | Some r => (ob_new o, (j, o_suite r)) :: made
+                          | None => made end in
+        scan lf (if ob_new o =? 0 then seen_new else ob_new o :: seen_new) made' t
+  | HLoss j _ :: t => scan last_failed seen_new (filter (fun m => negb (fst (snd m) =? j)) made) t
+  | _ :: t => scan last_failed seen_new made t
   end.
 
-Definition spec_code (k : case) : N := match k with HistCase _ _ evs => scan [] [] evs end.
+Definition spec_code (k : case) : N := match k with HistCase _ _ evs => scan [] [] [] evs end.
 
 Definition mismatches (cs : list (N * case)) : list N :=
   map fst (filter (fun x => mismatch (snd x)) cs).
